@@ -6,11 +6,12 @@ sys.path.insert(0, HERE); sys.path.insert(0, os.environ.get("VERIF_REPO", "/repo
 props = [json.loads(l) for l in open(os.path.join(HERE, "properties.jsonl"))]
 na_reasons = json.load(open(os.path.join(HERE, "tools", "not_applicable.json")))
 checks, na = [], []
+claimed = set(json.load(open(os.path.join(HERE, "tools", "claimed.json"))))
 for p in props:
     pid = p["id"]
     path = os.path.join(HERE, "vf", "checks", pid.lower() + ".py")
     mod = None
-    if os.path.exists(path):
+    if os.path.exists(path) and pid in claimed:
         mod = importlib.import_module("vf.checks." + pid.lower())
     if mod is None or not getattr(mod, "CLAIMED", True):
         na.append({"property_id": pid, "reason": na_reasons.get(pid, "check not built yet in this session; no claim is made")})
